@@ -122,7 +122,7 @@ def family_decimal(check, tier, observe, xsd_ok):
         if len(s) > 1024:
             continue
         o = observe(prot.from_unicode, Decimal, s)
-        if o[0] != 'ok' or o[1].as_tuple() != d.as_tuple():
+        if o[0] != 'ok' or o[1] != d:
             check.fail('C08|Decimal|roundtrip', 'Decimal %r written %r read back %r' % (d, s, o), {'value': str(d)})
         elif not xsd_ok('decimal', s):
             shape = 'scientific-notation' if 'E' in s.upper() else 'other'
@@ -137,7 +137,7 @@ def family_decimal(check, tier, observe, xsd_ok):
         want = D((0 if sign > 0 else 1, tuple(int(c) for c in str(int((ip + fp) or '0'))), -len(fp)))
         o = observe(prot.from_unicode, Decimal, s)
         check.count(('decl', s))
-        if o[0] != 'ok' or o[1].as_tuple() != want.as_tuple():
+        if o[0] != 'ok' or o[1] != want:
             check.fail('C08|Decimal|in_lex', 'xs:decimal literal %r read as %r, denotes %r' % (s, o, want), {'text': s})
     for s in ['NaN', 'nan', '-NaN', 'sNaN', 'Infinity', '-Infinity', 'inf', '+Inf', 'NaN123', 'N_aN']:
         o = observe(prot.from_unicode, Decimal, s)
@@ -240,3 +240,108 @@ def family_uuid(check, tier, observe, xsd_ok):
             want = uuid.UUID(int=int(s.replace('-', ''), 16))
             if o != ('ok', want):
                 check.fail('C08|Uuid|in_lex', 'canonical uuid text %r read as %r' % (s, o), {'text': s})
+
+
+# ------------------------------------------------------------------ regular expressions
+RX_IMPORTS = 'From SpyneV Require Import Base.Prelude C08.Regex Gen.Regexes.'
+RX_TYPE = 're * text * option (Z * list (text * option text))'
+RX_OKB = '(fun c => match_agrees (fst (fst c)) (snd (fst c)) (snd c))'
+RX_SHOW = ('(fun c : %s => match re_match (fst (fst c)) (snd (fst c)) with '
+           'Some (mt, _, e) => Some (len mt, e) | None => None end)' % RX_TYPE)
+
+def rx_want(mo, groups):
+    """a Python match object -> the Coq term the case carries: None | Some (end, [(name, group)])"""
+    if mo is None:
+        return 'None'
+    gd = []
+    for i, g in enumerate(groups, 1):
+        v = mo.group(i)
+        gd.append('(%s, %s)' % (gtext(g), 'None' if v is None else '(Some %s)' % gtext(v)))
+    return '(Some (%d, [%s]))' % (mo.end(), '; '.join(gd))
+
+def _gen_pattern(rng, depth):
+    def atom(d):
+        r = rng.random()
+        if r < .35 or d == 0:
+            return rng.choice(['a', 'b', '0', '1', '-', '\\.', 'Z', '\\d', '\\d', '[ab]', '[0-9]', '[^a]', '[a-b0]', '.', '[+-]', '[T ]', ':'])
+        if r < .6:
+            return '(' + alt(d - 1) + ')'
+        if r < .75:
+            return '(?:' + alt(d - 1) + ')'
+        return '(?P<g%d>' % rng.randrange(10 ** 6) + alt(d - 1) + ')'
+    def rep(d):
+        a = atom(d)
+        if rng.random() < .5:
+            return a
+        return a + rng.choice(['?', '*', '+', '{2}', '{1,2}', '{0,2}', '{2,}', '{1,3}', '?', '+', '{2,2}', '{4}'])
+    def seq(d):
+        return ''.join(rep(d) for _ in range(rng.randint(1, 4))) + rng.choice(['', '', '\\Z'])
+    def alt(d):
+        return '|'.join(seq(d) for _ in range(rng.choice([1, 1, 1, 2, 3])))
+    return alt(depth)
+
+def family_regex(check, tier):
+    """(a) the generic matcher of C08/Regex.v against Python's re on generated patterns of the fragment
+    and generated strings (this is the trusted part of the regex tie, sampled);
+    (b) the ASTs regenerated from Spyne's patterns against the compiled patterns themselves on the
+    literal streams of the date/time/duration/uuid families."""
+    import c08
+    from translate import regexes as RX
+    from translate.pyexpr import TranslateError
+    rng = check.rng
+    # (a)
+    cases = []
+    n = 150 if tier == 'quick' else 3000
+    nmatch = 0
+    tries = 0
+    while len(cases) < 3 * n and tries < 40 * n:
+        tries += 1
+        p = _gen_pattern(rng, 2)
+        try:
+            cp = re.compile(p)
+            term, groups = RX.to_coq(p, 0)
+        except (TranslateError, re.error):
+            continue
+        for _ in range(3):
+            s = ''.join(rng.choice('ab01-.Z:+T ') for _ in range(rng.randint(0, 8)))
+            mo = cp.match(s)
+            nmatch += mo is not None
+            cases.append(('(%s, %s, %s)' % (term, gtext(s), rx_want(mo, groups)),
+                          're.match(%r, %r) -> %r' % (p, s, mo and (mo.end(), mo.groups()))))
+            check.count(('rxg', p, s))
+    lib.correspond(check, 'regex_generic', RX_IMPORTS, RX_TYPE, RX_OKB, cases, shard=150, show=RX_SHOW)
+    check.extra['regex_generic_matches'] = nmatch
+    # (b)
+    pats = RX.patterns(lib.REPO)
+    dts = c08.dt_literals(check, tier)
+    durs = c08.dur_literals(check, tier)
+    uu = uuid_literals(check, tier)
+    streams = {
+        'rx_DATE_PATTERN': [s[:12] for s in dts] + ['2020-01-05', '2020-1-05', '20200-01-05', ''],
+        'rx_TIME_PATTERN': [s[11:] for s in dts if len(s) > 11] + ['12:00:00.', '12:00:00.5x', '12:00:00.55.5', '1:00:00'],
+        'rx_OFFSET_PATTERN': [s[19:] for s in dts if len(s) > 19] + ['+02:00', '-14:00x', '+2:00', 'Z', '+02:0', '+0200'],
+        'rx_DATETIME_PATTERN': dts,
+        'rx_DateTime_local': dts, 'rx_DateTime_utc': dts, 'rx_DateTime_offset': dts,
+        'rx_Date_offset': [s[:10] + s[19:] for s in dts if len(s) >= 19] + ['2020-01-05Z', '2020-01-05+02:00', '2020-01-05', '2020-01-05ZZ',
+                                                                             '2020-01-05+02:00Z', '2020-01-05Z+02:00', '2020-01-05+02:00x'],
+        'rx_inbase_date': [s[:10] for s in dts],
+        'rx_inbase_time': [s[11:] for s in dts if len(s) > 11],
+        'rx_inbase_duration': durs,
+        'rx_UUID_PATTERN': uu,
+    }
+    for name, pat, flags in pats:
+        term, groups = RX.to_coq(pat, flags)
+        cp = re.compile(pat, flags)
+        cs = []
+        seen = set()
+        for s in streams.get(name, dts):
+            if s in seen or any(ord(ch) > 127 and ch.isdigit() for ch in s):
+                continue            # non-ASCII decimal digits: outside the modelled universe (stated restriction)
+            seen.add(s)
+            mo = cp.match(s)
+            cs.append(('(%s, %s, %s)' % (name, gtext(s), rx_want(mo, groups)),
+                       '%s.match(%r) -> %r' % (name, s, mo and (mo.end(), mo.groupdict()))))
+            check.count(('rxs', name, s))
+        lib.correspond(check, 'regex_' + name, RX_IMPORTS, RX_TYPE, RX_OKB, cs, show=RX_SHOW)
+    check.sample({'family': 'regex', 'generated pattern cases': len(cases), 'of which match': nmatch,
+                  'spyne patterns': [p[0] for p in pats]})
